@@ -43,7 +43,6 @@ import (
 	"github.com/lightningnetwork/lnd/chanstate"
 	"github.com/lightningnetwork/lnd/clock"
 	"github.com/lightningnetwork/lnd/internal/verif/vstats"
-	"github.com/lightningnetwork/lnd/kvdb"
 	"github.com/lightningnetwork/lnd/lnpeer"
 	"github.com/lightningnetwork/lnd/lntest/mock"
 	"github.com/lightningnetwork/lnd/lntypes"
@@ -213,13 +212,7 @@ func c07ChanID(c uint64) lnwire.ChannelID {
 }
 
 func (w *c07World) startSwitch() error {
-	backend, err := kvdb.GetBoltBackend(&kvdb.BoltBackendConfig{
-		DBPath:            w.dir,
-		DBFileName:        "channel.db",
-		NoFreelistSync:    true,
-		AutoCompactMinAge: kvdb.DefaultBoltAutoCompactMinAge,
-		DBTimeout:         kvdb.DefaultDBTimeout,
-	})
+	backend, err := c07OpenKV(w.dir, "channel.db")
 	if err != nil {
 		return err
 	}
